@@ -69,17 +69,22 @@ structure Sent where
   b : List Str
 deriving Repr
 
-/-- createUniqueJobs: one certain job per left individual that shares an identifier with some
-    right individual (`ch a` = the right individual chosen); both pointers are recorded as sent.
-    No check that the right individual was not already taken, nor of the sent sets. -/
+/-- createUniqueJobs: a certain job for a left individual that shares an identifier with some
+    right individual (`ch a` = the right individual chosen) unless that right individual has
+    already been sent; both pointers are then recorded as sent.  The look-ups run in the worker
+    pool, but the jobs are emitted afterwards in the order of the left list, so this phase does
+    not depend on the schedule (since the fix "a right individual is matched by unique identifier
+    only once"; before it every such left individual got the job). -/
 def uniqueJobs (ch : Person → Option Person) : List Person → Sent → List Job × Sent
   | [], s => ([], s)
   | a :: as, s =>
     match ch a with
     | none => uniqueJobs ch as s
     | some b =>
-      let (js, s') := uniqueJobs ch as ⟨a.ptr :: s.a, b.ptr :: s.b⟩
-      (⟨a.id, b.id, true, 0⟩ :: js, s')
+      if s.b.contains b.ptr then uniqueJobs ch as s
+      else
+        let (js, s') := uniqueJobs ch as ⟨a.ptr :: s.a, b.ptr :: s.b⟩
+        (⟨a.id, b.id, true, 0⟩ :: js, s')
 
 /-- createPointerJobs: same pointer on both sides, neither side sent yet, forced weighted
     similarity at least `PreferPointerAbove` -/
